@@ -43,6 +43,8 @@ BOXES = {
     'bigvec': [1200.5, 1300.25, 1500.125],
     'bigtric': [[2048.0, 0.0, 0.0], [-150.5, 2048.0, 0.0], [1024.25, -1000.125, 1024.5]],
 }
+# a flat sheared sheet: one box length is zero, so only three of the nine components are non-zero, one of them off the diagonal
+BOXES['sheet'] = [[3.0, 0.0, 0.0], [1.5, 2.59808, 0.0], [0.0, 0.0, 0.0]]
 # one non-zero off-diagonal component in each of the six positions (the 9-number box line stores all of them)
 for _i in range(3):
     for _j in range(3):
@@ -325,7 +327,7 @@ class C13(Check):
     technique = ('exhaustive enumeration of four input sub-products on the real GroFile writer and reader over '
                  'real files; statement oracle + independent reference reader on the written bytes')
     level_text = ('every member of P1 (12x12 names x 10x10 numbers), P2 (7 formats x 54 boundary triples x velocities x '
-                  '1..3 records), P3 (7 formats x velocities x 7 titles x 12 boxes (incl. one for each single off-diagonal component) x count mode), P4 (interaction product, '
+                  '1..3 records), P3 (7 formats x velocities x 7 titles x 13 boxes (incl. one for each single off-diagonal component and a sheared box with one zero length) x count mode), P4 (interaction product, '
                   '3024 x 1..3 records) and 299/300-record files is written by the real writer to a real file and read '
                   'back, in both tiers; thorough adds the full 18^3 cube of the coordinate alphabet per format x velocities '
                   'and the sizes 9, 10, 99, 100; coverage of that finite product, not a proof over all reals / strings')
